@@ -3,6 +3,8 @@ import Ruint.Lemmas.GenValue
 import Ruint.Lemmas.Log
 import Ruint.Lemmas.Root
 import Ruint.Lemmas.C13Spec
+import Ruint.Lemmas.GenLog
+import Ruint.Lemmas.GenRoot
 
 /-!
 # C13 — powers, integer logarithms and integer roots are exact
@@ -355,5 +357,52 @@ theorem gen_checked_saturating_pow_eq (bits L a e : ℕ) :
     ∧ Ruint.Gen.val_pow (e + 1) bits L a e = Pow.pow bits a e :=
   ⟨Ruint.GenValue.checked_pow_eq bits L a e, Ruint.GenValue.saturating_pow_eq bits L a e,
    Ruint.GenValue.pow_eq bits L a e⟩
+
+/-! ## Tie of `log` and its wrappers to the source (G, value mode)
+
+`Ruint.Gen.val_log`, `val_checked_log`, `val_log2`, `val_log10`, `val_checked_log2`, `val_checked_log10` are regenerated from
+`src/log.rs` on every run in value mode, with the libm-derived first estimate as the parameter `est` (one declared rewrite:
+the three lines computing `approx_log2() / approx_log2()` and converting it). The early returns, the `base == 2` shortcut, the
+two correction loops over `checked_pow` / `checked_add` (`if let Some`, `while let Some`), the `assert!`s (`none` = panic) and
+the `try_from(2)` / `try_from(10)` guards of the wrappers are the source's. With enough fuel they are the models the theorems
+above are about, on every run on which the model itself does not run out of fuel (`log_total` bounds that). `bits ≤ 2^64`
+is needed: `bit_len() - 1` is a `usize` subtraction (`log_eq_needs_hbits` in `Lemmas/GenLog.lean` proves the failure beyond). -/
+
+theorem gen_log_eq (bits L x base est : ℕ) (hbits : bits ≤ 2 ^ 64) (hx : x < 2 ^ bits) (hb : base < 2 ^ bits)
+    (he : est < 2 ^ bits) (hm : Log.log bits x base est ≠ .fuel) (f : ℕ) (hf : est + bits + 2 < f) :
+    Ruint.GenLog.toRes (Ruint.Gen.val_log f bits L x base est) = Log.log bits x base est :=
+  Ruint.GenLog.log_eq bits L x base est hbits hx hb he hm f hf
+
+theorem gen_checked_log_eq (bits L x base est : ℕ) (hbits : bits ≤ 2 ^ 64) (hx : x < 2 ^ bits) (hb : base < 2 ^ bits)
+    (he : est < 2 ^ bits) (hm : Log.checkedLog bits x base est ≠ .fuel) (f : ℕ) (hf : est + bits + 2 < f) :
+    Ruint.GenLog.toRes (Ruint.Gen.val_checked_log f bits L x base est) = Log.checkedLog bits x base est :=
+  Ruint.GenLog.checked_log_eq bits L x base est hbits hx hb he hm f hf
+
+theorem gen_log2_log10_eq (bits L x est : ℕ) (hbits : bits ≤ 2 ^ 64) (hx : x < 2 ^ bits) (he : est < 2 ^ bits)
+    (f : ℕ) (hf : est + bits + 2 < f) :
+    (Log.log2 bits x est ≠ .fuel → Ruint.GenLog.toRes (Ruint.Gen.val_log2 f bits L x est) = Log.log2 bits x est)
+    ∧ (Log.log10 bits x est ≠ .fuel → Ruint.GenLog.toRes (Ruint.Gen.val_log10 f bits L x est) = Log.log10 bits x est)
+    ∧ (Log.checkedLog2 bits x est ≠ .fuel →
+        Ruint.GenLog.toRes (Ruint.Gen.val_checked_log2 f bits L x est) = Log.checkedLog2 bits x est)
+    ∧ (Log.checkedLog10 bits x est ≠ .fuel →
+        Ruint.GenLog.toRes (Ruint.Gen.val_checked_log10 f bits L x est) = Log.checkedLog10 bits x est) :=
+  ⟨fun hm => Ruint.GenLog.log2_eq bits L x est hbits hx he hm f hf,
+   fun hm => Ruint.GenLog.log10_eq bits L x est hbits hx he hm f hf,
+   fun hm => Ruint.GenLog.checked_log2_eq bits L x est hbits hx he hm f hf,
+   fun hm => Ruint.GenLog.checked_log10_eq bits L x est hbits hx he hm f hf⟩
+
+/-! ## Tie of `root` to the source (G, value mode)
+
+`Ruint.Gen.val_root` is regenerated from `src/root.rs` on every run in value mode with the libm-derived first guess as the
+parameter `guess` (one declared rewrite: the `approx_pow2(approx_log2() / degree)` line). The `degree > 0` assert, the three
+early returns, the `Self::from(degree - 1)` / `Self::from(degree)` conversions (which panic when the degree does not fit),
+the Newton loop with its `match (decreasing, iter.cmp(&result))` (tuple / `Ordering` / or-patterns, `break result`, the
+`min(iter, result.saturating_shl(1))` cap), the wrapping `+` and `*` and the division-by-zero panics of `/` are the source's.
+With enough fuel it is the model `Root.root` the theorems above are about. -/
+
+theorem gen_root_eq (bits L x k g : ℕ) (hx : x < 2 ^ bits) (hg : g < 2 ^ bits) (hk : k < 2 ^ 64)
+    (hm : Ruint.Root.root bits x k g ≠ .fuel) (f : ℕ) (hf : Ruint.Root.rootFuel x g + bits + 2 < f) :
+    Ruint.GenLog.toRes (Ruint.Gen.val_root f bits L x k g) = Ruint.Root.root bits x k g :=
+  Ruint.GenRoot.root_eq bits L x k g hx hg hk hm f hf
 
 end Ruint.C13
